@@ -15,7 +15,8 @@ func init() {
 			"C06.cancel-not-success: a fired ctx.Done() in these functions never ends in a nil error. C06.chop-verifies: readChunkFromFile reads c.Size bytes at c.Start and builds the chunk with NewChunkWithID(c.ID, b, false). " +
 			"C06.processed-set: ChunkStorage.StoreChunk returns nil only for 'already marked', 'HasChunk (true,nil)' or 'ws.StoreChunk nil'; HasChunk/StoreChunk errors are returned; a failed store unmarks the id (deferred); processed is accessed under the mutex. " +
 			"C06.commands: runMake, runChop, runCache, runTar return every error of IndexFromFile/ChopFile/Copy/ChunkStream/index store calls; runTar tests tarErr before the index is stored. C06.index-row: the index row recorded by ChunkStream has Size=len(b) and ID=ID of the chunk built from the same b, at the chunker's start offset. " +
-			"C06.chunk-buffer-ownership: Chunker.fillBuffer reads into a buffer allocated in the same call, because chunks handed to the workers are sub-slices of the previous buffer.",
+			"C06.chunk-buffer-ownership: Chunker.fillBuffer reads into a buffer allocated in the same call, because chunks handed to the workers are sub-slices of the previous buffer. " +
+			"C06.store-writes (shared with C08 and C20): LocalStore.StoreChunk returns nil only after create-temp, successful write of the store's own converted form of the chunk, close and rename to the id-derived name; a failed write is returned.",
 		NotDecided: "contents of the target store after success; races between workers on duplicate ids beyond the argument that a failed leader's error reaches g.Wait(); behaviour of the stores.",
 		Rules: []rule{
 			{"C06.errgroup", "bulk writers run workers under errgroup and succeed only through g.Wait()", 3, func(c *Ctx) { c.errgroupRule("ChopFile", "Copy", "ChunkStream") }},
@@ -26,6 +27,7 @@ func init() {
 			{"C06.commands", "make/chop/cache/tar -i return every error of the bulk operations", 4, c06Commands},
 			{"C06.index-row", "ChunkStream records size and id of the same bytes it stores", 2, c06IndexRow},
 			{"C06.chunk-buffer-ownership", "the chunker never reuses a buffer whose sub-slices were handed out", 1, c06BufferOwnership},
+			{"C06.store-writes", "the local store publishes a chunk only after its converted data was written completely (shared with C08/C20)", 4, func(c *Ctx) { c08Typestate(c); c20WriteFormat(c) }},
 			{"C06.errors-not-dropped", "no error of the operations this property depends on is dropped", 1, func(c *Ctx) { c.errorsNotDropped("C06") }},
 		},
 	})
